@@ -132,3 +132,50 @@ def run(prog, rule="R-EXPLICITBND"):
     res.counts["stores"] = nsites
     res.floor("stores into the raw LP's bound arrays", nsites, 10)
     return res
+
+
+def run_bndflag(prog, rule="R-BNDFLAG", floor=6):
+    """a bound taken from the file is marked as given.  The flags lbind[] / ubind[] tell the default rules of ILLraw_fill_in_bounds which
+    entries the file has set ("an integer column without bounds is binary").  Every other function that stores into an element of
+    rawlpdata::lower (upper) stores 1 into the matching flag array as well; the routines that allocate, release or initialise the arrays and the one that applies the defaults
+    (ILLraw_fill_in_bounds stores only where the flag was found zero and leaves it zero: the value is not the file's) are named and
+    left to R-EXPLICITBND.  A reader branch that assigns the bound directly leaves the flag zero and the default rule overwrites
+    what the file said (PL on an integer column read back as a binary column)."""
+    res = RuleResult(rule, "every function that stores a file-given bound into the raw LP also stores 1 into the matching 'explicitly given' flag")
+    n = 0
+    for f in sorted(prog.funcs.values(), key=lambda x: x.key):
+        if f.live is None or "_dbl." in f.unit or "_mpf." in f.unit or not f.unit.startswith("qsopt_ex/"):
+            continue
+        if f.name.endswith(("ILLinit_rawlpdata", "ILLfree_rawlpdata", "ILLraw_init_bounds", "ILLraw_fill_in_bounds")):
+            continue          # allocation / release / the default rules themselves (R-EXPLICITBND is in charge of those)
+        stored, flagged = {}, set()
+        for b, i, e in f.elements():
+            tgt = None
+            if e[0] == "A" and e[1][1] == "=":
+                tgt = e[1][2]
+                fl_ = _flag_of(tgt)
+                if fl_ and const_of(e[1][3]) not in (None, 0):
+                    flagged.add(fl_)
+            elif e[0] == "C" and e[1][3] and (callee(e[1]) or "").startswith(("mpq_set", "__gmpq_set", "mpq_EGlpNumCopy")):
+                tgt = e[1][3][0]
+            if tgt is None:
+                continue
+            t = strip(tgt)
+            if isinstance(t, list) and t and t[0] == "i":
+                fl = fields_of(apath(t[1])[2])
+                for bnd, flag in PAIRS.items():
+                    if fl and fl[-1].endswith(bnd):
+                        stored.setdefault(bnd, e[2] if e[0] == "A" else e[1][4])
+        for bnd, loc in sorted(stored.items()):
+            n += 1
+            res.obligations += 1
+            res.nontrivial += 1
+            if PAIRS[bnd] in flagged:
+                res.sample({"function": f.name, "bound": bnd.split("::")[1], "verdict": "the flag of the entry is set in the same function"}, limit=10)
+            else:
+                res.violations.append(Violation(rule, "%s|%s stored, %s left alone" % (f.name.replace("mpq_", ""), bnd.split("::")[1], PAIRS[bnd].split("::")[1]), f.name, short_loc(loc),
+                                                "%s stores into %s of the raw LP and never sets %s: the default rules will treat the entry as not given and may "
+                                                "replace it" % (f.name, bnd.split("::")[1], PAIRS[bnd].split("::")[1])))
+    res.counts["bound_storing_functions"] = n
+    res.floor("(function, bound array) pairs that store a file-given bound", n, floor)
+    return res
